@@ -1035,7 +1035,7 @@ class Flow(NLRI):
         lc = len(components)
         if lc < FLOW_LENGTH_COMPACT_MAX:
             return bytes([lc]) + components
-        if lc < FLOW_LENGTH_EXTENDED_MAX:
+        if lc <= FLOW_LENGTH_EXTENDED_MAX:
             return pack('!H', lc | (FLOW_LENGTH_EXTENDED_VALUE << 8)) + components
         raise Notify(
             3,
